@@ -130,7 +130,7 @@ static spif_obj_t op_build(int i)
     return SPIF_OBJ(p);
 }
 static const char *op_bname(int i) { return OPB[i]; }
-static const char *OPM[] = { "set_key(new \"k\")", "set_value(new \"v\")", "done()", "mutate key in place" };
+static const char *OPM[] = { "set_key(new \"k\")", "set_value(new \"v\")", "done()", "mutate key in place", "refused constructions new_from_both(k,NULL), new_from_both(NULL,v)" };
 static void op_mut(spif_obj_t o, int j)
 {
     spif_objpair_t p = SPIF_OBJPAIR(o);
@@ -139,6 +139,9 @@ static void op_mut(spif_obj_t o, int j)
     case 1: spif_objpair_set_value(p, S_("v")); break;
     case 2: spif_objpair_done(p); break;
     case 3: if (p->key) spif_str_append_char(SPIF_STR(p->key), '!'); break;
+    case 4: { if (DEBUG_LEVEL >= 1) break;                        /* a failed ASSERT is fatal there (C20), by design */
+              spif_obj_t k = S_("k"); spif_objpair_t a = spif_objpair_new_from_both(k, (spif_obj_t) NULL), b = spif_objpair_new_from_both((spif_obj_t) NULL, k);   /* both refused at debug level 0 */
+              if (a) spif_objpair_del(a); if (b) spif_objpair_del(b); SPIF_OBJ_DEL(k); break; }
     }
 }
 static const char *op_mname(int j) { return OPM[j]; }
@@ -278,7 +281,7 @@ static spif_obj_t ls_build(int i)
     return l;
 }
 static const char *ls_bname(int i) { return LSB[i]; }
-static const char *LSM[] = { "append(new x)", "prepend(new y)", "insert_at(new z, count+1)", "remove_at(0)+del", "reverse()", "remove(a)+del", "mutate first element in place", "to_array+free", "iterator walk+del" };
+static const char *LSM[] = { "append(new x)", "prepend(new y)", "insert_at(new z, count+1)", "remove_at(0)+del", "reverse()", "remove(a)+del", "mutate first element in place", "to_array+free", "iterator walk+del", "remove_at(count-1)+del" };
 static void ls_mut(spif_obj_t l, int j)
 {
     spif_obj_t r, p;
@@ -292,6 +295,7 @@ static void ls_mut(spif_obj_t l, int j)
     case 6: r = SPIF_LIST_GET(l, 0); if (r) spif_str_append_char(SPIF_STR(r), '!'); break;
     case 7: { spif_obj_t *a = SPIF_LIST_TO_ARRAY(l); if (a) FREE(a); break; }
     case 8: { spif_iterator_t it = SPIF_LIST_ITERATOR(l); int g = 0; while (it && SPIF_ITERATOR_HAS_NEXT(it) && g++ < 64) (void) SPIF_ITERATOR_NEXT(it); if (it) SPIF_ITERATOR_DEL(it); break; }
+    case 9: if (SPIF_LIST_COUNT(l)) { r = SPIF_LIST_REMOVE_AT(l, (spif_listidx_t) SPIF_LIST_COUNT(l) - 1); if (r) SPIF_OBJ_DEL(r); } break;
     }
 }
 static const char *ls_mname(int j) { return LSM[j]; }
@@ -350,7 +354,7 @@ static spif_obj_t mp_build(int i)
 }
 static const char *mp_bname(int i) { return MPB[i]; }
 static const char *MPM[] = { "set(a,9)", "set(z,1)", "remove(a)+del", "remove(absent)", "get_keys+del", "get_values+del", "get_pairs+del", "mutate value of a in place", "iterator walk+del",
-                             "set(a, the map's own value object of a)", "set(the map's own first pair, NULL)" };
+                             "set(a, the map's own value object of a)", "set(the map's own first pair, NULL)", "set(new key n, NULL) (array family: refused)" };
 static void mp_mut(spif_obj_t m, int j)
 {
     spif_obj_t K, r; spif_list_t l;
@@ -366,6 +370,7 @@ static void mp_mut(spif_obj_t m, int j)
     case 8: { spif_iterator_t it = SPIF_MAP_ITERATOR(m); int g = 0; while (it && SPIF_ITERATOR_HAS_NEXT(it) && g++ < 64) (void) SPIF_ITERATOR_NEXT(it); if (it) SPIF_ITERATOR_DEL(it); break; }
     case 9: K = S_("a"); r = SPIF_MAP_GET(m, K); if (r) SPIF_MAP_SET(m, K, r); SPIF_OBJ_DEL(K); break;          /* the map copies what it is given, so its own value object is a legal argument */
     case 10: { spif_iterator_t it = SPIF_MAP_ITERATOR(m); spif_obj_t p = (it && SPIF_ITERATOR_HAS_NEXT(it)) ? SPIF_ITERATOR_NEXT(it) : NULL; if (it) SPIF_ITERATOR_DEL(it); if (p) SPIF_MAP_SET(m, p, (spif_obj_t) NULL); break; }
+    case 11: if (g_family == 0 && DEBUG_LEVEL < 1) { K = S_("n"); SPIF_MAP_SET(m, K, (spif_obj_t) NULL); SPIF_OBJ_DEL(K); } break;       /* the list families store the NULL pair; only array refuses it */
     }
 }
 static const char *mp_mname(int j) { return MPM[j]; }
